@@ -38,7 +38,7 @@ AttrModel(F) ==
 InjModel(i) ==
   [type |-> TPrim(i.type), mode |-> "none", sub |-> EmptyFn,
    required |-> i.required, optional |-> i.optional, computed |-> i.computed, sensitive |-> FALSE,
-   descw |-> <<>>, validators |-> <<>>, planmods |-> <<>>]
+   descw |-> <<>>, validators |-> TagSeq("V", i.validators), planmods |-> TagSeq("PM", i.planmods)]
 
 SchemaOf(M) ==
   Merge([a \in AttrNames(M) |-> AttrModel(FieldByAttr(M, a))],
